@@ -110,7 +110,10 @@ func TestVFC01Runtime(t *testing.T) {
 			nOps := rapid.IntRange(1, 2).Draw(t, fmt.Sprintf("p%d_n_ops", ph))
 			for k := 0; k < nOps; k++ {
 				label := fmt.Sprintf("p%d_op%d", ph, k)
-				kinds := []string{"set_rules", "filtering_config", "protection", "protection", "mode", "services"}
+				kinds := []string{"set_rules", "filtering_config", "protection", "protection", "mode", "services", "add_list"}
+				if len(c.Block)+len(c.Allow) > 0 {
+					kinds = append(kinds, "remove_list")
+				}
 				if c.Protection == "paused_future" {
 					kinds = append(kinds, "protection", "protection", "protection")
 				}
@@ -231,6 +234,58 @@ func TestVFC01Runtime(t *testing.T) {
 						vfC01.Class("rt:" + kind + ":refused")
 					}
 					lastToggled = ""
+				case "add_list":
+					// a new list, switched on at once; a source without rules is
+					// refused
+					allow := rapid.IntRange(0, 2).Draw(t, label+"_allowlist") == 0
+					nr := rapid.SampledFrom([]int{0, 1, 1, 2, 3}).Draw(t, label+"_n_rules")
+					var rs []vfRule
+					for j := 0; j < nr; j++ {
+						rs = append(rs, vfDrawRule(t, c.Subjects, fmt.Sprintf("%s_r%d", label, j), allow, c.Client, c.Core))
+					}
+					repoints++
+					newURL := filepath.Join(w.dir, "src", fmt.Sprintf("added-%d.txt", repoints))
+					werr := os.MkdirAll(filepath.Dir(newURL), 0o755)
+					if werr == nil {
+						werr = os.WriteFile(newURL, []byte(strings.Join(vfTexts(rs), "\n")+"\n"), 0o644)
+					}
+					if werr != nil {
+						t.Fatalf("VERIF-INCONCLUSIVE writing list source: %v", werr)
+					}
+					b, _ := json.Marshal(map[string]any{"name": "added list", "url": newURL, "whitelist": allow})
+					rec := httptest.NewRecorder()
+					handlers["POST /control/filtering/add_url"](rec, httptest.NewRequest(http.MethodPost, "/control/filtering/add_url", bytes.NewReader(b)))
+					switch {
+					case rec.Code == http.StatusOK && nr == 0:
+						t.Fatalf("a list without any rule was accepted by add_url: %s\nconfig: %v", rec.Body.String(), c.describe())
+					case rec.Code == http.StatusOK && allow:
+						c.Allow, c.AllowOn, srcAllow, w.allowURLs = append(c.Allow, rs), append(c.AllowOn, true), append(srcAllow, rs), append(w.allowURLs, newURL)
+					case rec.Code == http.StatusOK:
+						c.Block, c.BlockOn, srcBlock, w.blockURLs = append(c.Block, rs), append(c.BlockOn, true), append(srcBlock, rs), append(w.blockURLs, newURL)
+					case nr > 0:
+						t.Fatalf("add_url of a list with %d rules refused: %d %s\nconfig: %v", nr, rec.Code, rec.Body.String(), c.describe())
+					}
+					vfC01.Class(fmt.Sprintf("rt:add_list:allow=%t:accepted=%t", allow, rec.Code == http.StatusOK))
+				case "remove_list":
+					allow := len(c.Block) == 0 || (len(c.Allow) > 0 && rapid.Bool().Draw(t, label+"_allowlist"))
+					urls := w.blockURLs
+					if allow {
+						urls = w.allowURLs
+					}
+					i := rapid.IntRange(0, len(urls)-1).Draw(t, label+"_list")
+					call(http.MethodPost, "/control/filtering/remove_url", map[string]any{"url": urls[i], "whitelist": allow})
+					if allow {
+						for _, r := range c.Allow[i] {
+							c.focus = append(c.focus, r.Domain)
+						}
+						c.Allow, c.AllowOn, srcAllow, w.allowURLs = slices.Delete(slices.Clone(c.Allow), i, i+1), slices.Delete(c.AllowOn, i, i+1), slices.Delete(srcAllow, i, i+1), slices.Delete(w.allowURLs, i, i+1)
+					} else {
+						for _, r := range c.Block[i] {
+							c.focus = append(c.focus, r.Domain)
+						}
+						c.Block, c.BlockOn, srcBlock, w.blockURLs = slices.Delete(slices.Clone(c.Block), i, i+1), slices.Delete(c.BlockOn, i, i+1), slices.Delete(srcBlock, i, i+1), slices.Delete(w.blockURLs, i, i+1)
+					}
+					vfC01.Class(fmt.Sprintf("rt:remove_list:allow=%t", allow))
 				case "client_update", "client_update_rejected":
 					// what POST /control/clients/update does with the registry
 					prev, ok := w.storage.FindByName(c.Client.Name)
